@@ -1,14 +1,16 @@
 (* C09: the hand-written descriptions of the primitives under the translated code were written against exactly
    these function bodies of /repo (digests re-derived from the source on every run). *)
 From Coq Require Import String List.
-From MC Require GeneratedStreamKeeper GeneratedWrkchainKeeper GeneratedBeaconKeeper.
+From MC Require GeneratedStreamKeeper GeneratedWrkchainKeeper GeneratedBeaconKeeper GeneratedEnterpriseKeeper.
 From MC Require Import proofs.PrimitiveBodies.
 Import ListNotations.
 Local Open Scope string_scope.
 
 Theorem C09_wrkchain_primitive_bodies_as_reviewed :
   GeneratedWrkchainKeeper.wrkchain_primitive_bodies =
-  [("GetHighestWrkChainID", "a9fe330044e47ebc");
+  [("GetAllWrkChainBlockHashesForGenesisExport", "6cfba5ffedc45709");
+   ("GetAllWrkChains", "f9a2908714127224");
+   ("GetHighestWrkChainID", "a9fe330044e47ebc");
    ("GetLastWrkChainHeightInState", "6655857512cc6447");
    ("GetParamDefaultStorageLimit", "40d21abf76583945");
    ("GetParamMaxStorageLimit", "da6fbdd300103325");
@@ -21,6 +23,8 @@ Theorem C09_wrkchain_primitive_bodies_as_reviewed :
    ("IsWrkChainBlockRecorded", "a2a491560cc11770");
    ("IsWrkChainRegistered", "54488308a32989ee");
    ("IterateWrkChainBlockHashesPaginated", "5807a39cd1168429");
+   ("IterateWrkChainBlockHashesReverse", "ac9afe43f512ef83");
+   ("IterateWrkChains", "16fd2351c8022345");
    ("SetHighestWrkChainID", "78a91d12f47997c9");
    ("SetParams", "73bc5d17b364b792");
    ("SetWrkChain", "88262d6a48523e66");
@@ -32,7 +36,9 @@ Print Assumptions C09_wrkchain_primitive_bodies_as_reviewed.
 
 Theorem C09_beacon_primitive_bodies_as_reviewed :
   GeneratedBeaconKeeper.beacon_primitive_bodies =
-  [("GetBeacon", "ffc24cb9b2c2eb6f");
+  [("GetAllBeaconTimestampsForExport", "297493c808f6f283");
+   ("GetAllBeacons", "017c5698a1c02ec9");
+   ("GetBeacon", "ffc24cb9b2c2eb6f");
    ("GetBeaconOwner", "ad9f6a16014219f9");
    ("GetBeaconStorageLimit", "ac78ecddd75c9fd7");
    ("GetHighestBeaconID", "5e0b9a7111190145");
@@ -43,6 +49,8 @@ Theorem C09_beacon_primitive_bodies_as_reviewed :
    ("IsAuthorisedToRecord", "102ddfd584d6e4de");
    ("IsBeaconRegistered", "db23b52aa0a27acd");
    ("IsBeaconTimestampRecordedByID", "30ce84005b5ec802");
+   ("IterateBeaconTimestampsReverse", "82f5dc7e9390a3bb");
+   ("IterateBeacons", "313fa38d4af6f8a3");
    ("SetBeacon", "a1ac82aa6dc27698");
    ("SetBeaconStorageLimit", "88c64e4daa881e9d");
    ("SetBeaconTimestamp", "9ac91eb3ad64e31d");
